@@ -163,8 +163,17 @@ theorem C05_open_position_is_newest_of_own_log (d s : Engine.Eng) (h : Recovery.
 theorem C05_source_skeletons :
     Gen.Skel.DB_recover = Expected.Skel.DB_recover ∧
     Gen.Skel.DB_rollbackJournal = Expected.Skel.DB_rollbackJournal ∧
+    Gen.Skel.DB_rollbackJournalSegment = Expected.Skel.DB_rollbackJournalSegment ∧
     Gen.Skel.DB_maxLTXFile = Expected.Skel.DB_maxLTXFile ∧
     Gen.Skel.DB_CheckpointNoLock = Expected.Skel.DB_CheckpointNoLock :=
+  ⟨rfl, rfl, rfl, rfl, rfl⟩
+
+/-- further regenerated control skeletons (see Model/ExpectedSkel.lean): DB_Open, DB_initFromDatabaseHeader, DB_initDatabaseFile, DB_syncWALToLTX -/
+theorem C05_source_skeletons_2 :
+    Gen.Skel.DB_Open = Expected.Skel.DB_Open ∧
+    Gen.Skel.DB_initFromDatabaseHeader = Expected.Skel.DB_initFromDatabaseHeader ∧
+    Gen.Skel.DB_initDatabaseFile = Expected.Skel.DB_initDatabaseFile ∧
+    Gen.Skel.DB_syncWALToLTX = Expected.Skel.DB_syncWALToLTX :=
   ⟨rfl, rfl, rfl, rfl⟩
 
 end LiteFSVerif.C05
